@@ -135,7 +135,7 @@ def repair_late_store(body, names, top=True):
         elif k == "for":
             out.append(["for", s[1], s[2], R(s[3], True), R(s[4], True), s[5], s[6]])
         elif k == "setblock":
-            out.append(["setblock", s[1], R(s[2], True)])
+            out.append(["setblock", s[1], R(s[2], True)] + list(s[3:]))
         elif k == "with":
             out.append(["with", s[1], R(s[2], True)])
         elif k == "macro":
